@@ -382,6 +382,43 @@ func scenarios() []scenario {
 				w.SM.CtrlAddIpBlacklist(base.ApiCtrlAddIpBlacklistReq{Ip: "10.1.1.3", DurationSec: 100})
 			})
 		}},
+		{Name: "hls-subsession+sweep", Conf: world.Conf{"hls.enable": true, "hls.cleanup_mode": 0, "hls.sub_session_hash_key": "k1"}, Build: func(w *world.W, e *sched.Exec) {
+			// a viewer polls with its session id while the handler's one-second sweep looks for expired sessions
+			// and a second client presents the same session id
+			shared := make(chan string, 1)
+			e.Go("hls-viewer", func() {
+				defer func() { recover() }()
+				uri := "/hls/s.m3u8"
+				for i := 0; i < 3; i++ {
+					req, _ := http.NewRequest("GET", "http://h"+uri, nil)
+					req.RequestURI = uri
+					req.RemoteAddr = "10.1.1.3:1"
+					rec := &hijackW{c: sched.NewConn("hls-viewer", nil), hdr: http.Header{}}
+					logic.VerifServeHls(w.SM, rec, req)
+					if loc := rec.hdr.Get("Location"); loc != "" {
+						uri = loc
+						select {
+						case shared <- loc:
+						default:
+						}
+					}
+				}
+			})
+			e.Go("hls-same-session", func() {
+				defer func() { recover() }()
+				var uri string
+				select {
+				case uri = <-shared:
+				default:
+					return // the viewer has no session yet in this schedule
+				}
+				req, _ := http.NewRequest("GET", "http://h"+uri, nil)
+				req.RequestURI = uri
+				req.RemoteAddr = "10.1.1.3:2"
+				logic.VerifServeHls(w.SM, &hijackW{c: sched.NewConn("hls-same-session", nil), hdr: http.Header{}}, req)
+			})
+			e.Go("hls-sweep", func() { logic.VerifHlsSweep(w.SM); logic.VerifHlsSweep(w.SM) })
+		}},
 		// the HLS directory cleanup lal schedules when an input ends runs as a thread of its own (it looks the
 		// group up and removes files) while another stream name appears and the tick erases idle groups
 		{Name: "hls-cleanup+second-stream+tick", Conf: world.Conf{"hls.enable": true, "hls.cleanup_mode": 1}, Build: func(w *world.W, e *sched.Exec) {
